@@ -547,15 +547,19 @@ def element_effects():
                 raise Fail('local assignment with a call: ' + u)
             return ['Read']
         if isinstance(st, ast.Assign) and len(st.targets) == 1 and isinstance(st.targets[0], ast.Attribute):
+            # a store into the container bookkeeping reached from a local (the child, its schema leaf, the leaf's container), never into self
             root = st.targets[0]
             while isinstance(root, ast.Attribute):
                 root = root.value
-            if isinstance(root, ast.Name) and root.id in ('parent_container', 'child'):
+            if isinstance(root, ast.Name) and root.id != 'self' and st.targets[0].attr not in ('_parent', '_unordered_children', '_value', '_attributes'):
                 return ['Container']
-        if u == 'child.parent_xsd_element.xml_elements.remove(child)':
-            return ['Container']
-        if isinstance(st, ast.Expr) and isinstance(st.value, ast.Call) and isinstance(st.value.func, ast.Name) and st.value.func.id in helpers and not st.value.args:
-            return ['Container']
+        if isinstance(st, ast.Expr) and isinstance(st.value, ast.Call) and isinstance(st.value.func, ast.Attribute) and st.value.func.attr == 'remove' \
+                and ast.unparse(st.value.func.value).endswith('.xml_elements') and not ast.unparse(st.value.func.value).startswith('self.') \
+                and [ast.unparse(a) for a in st.value.args] == ['child']:
+            return ['Container']                     # the child leaves its schema leaf's list (however the leaf is named)
+        if isinstance(st, ast.Expr) and isinstance(st.value, ast.Call) and isinstance(st.value.func, ast.Name) and st.value.func.id in helpers \
+                and all(isinstance(a, ast.Name) for a in st.value.args) and not st.value.keywords:
+            return ['Container']                     # a nested helper (container bookkeeping), with or without its locals passed in
         raise Fail('unrecognised statement: ' + u[:80])
     out = {}
     for k, f in fns.items():
@@ -742,10 +746,16 @@ def attr_set_ir():
     none_path = path_common + ['Store', 'Store']          # a key whose value is None: popped, nothing to check, merge of an empty dict
     value_path = path_common + ['Validate', 'Store']      # a key with a value: checked, then stored by the merge
     many_path = path_common + ['Store', 'Validate', 'Store']
-    c = body(ca)
-    if len(c) != 4 or c[0] != 'attributes = self.TYPE.get_xsd_attributes()' or not c[2].startswith('if name not in [attribute.name for attribute in self.TYPE.get_xsd_attributes()]:\n    raise XSDWrongAttribute(') \
-            or c[3] != 'for attribute in attributes:\n    if attribute.name == name:\n        return attribute(value)':
-        raise Fail('_check_attribute changed')
+    # _check_attribute: what the theorems use is that it only CHECKS (no store to anything but its own locals, no call of a mutating method);
+    # what it accepts is tied by the correspondence of C04 (extracted set_attr vs the implementation)
+    for n in ast.walk(ca):
+        if isinstance(n, ast.Call) and isinstance(n.func, ast.Attribute) and n.func.attr in (
+                'pop', 'append', 'update', 'remove', 'clear', 'extend', 'insert', 'setdefault', 'popitem', '__setattr__', '__setitem__', '__delitem__', 'add', 'discard', 'sort', 'reverse'):
+            raise Fail('_check_attribute calls a mutating method: ' + n.func.attr)
+        if isinstance(n, ast.Call) and isinstance(n.func, ast.Name) and n.func.id in ('setattr', 'delattr'):
+            raise Fail('_check_attribute calls ' + n.func.id)
+        if isinstance(n, (ast.Delete, ast.Global, ast.Nonlocal)):
+            raise Fail('_check_attribute: del / global')
     for n in ast.walk(ca):
         if isinstance(n, (ast.Assign, ast.AugAssign)):
             for tg in (n.targets if isinstance(n, ast.Assign) else [n.target]):
